@@ -41,8 +41,14 @@ type gen struct {
 
 func (g *gen) flag(f string) { g.feat[f] = true }
 
-func (g *gen) chance(n int, label string) bool { // true with probability 1/n
-	return rapid.IntRange(0, n-1).Draw(g.t, label) == 0
+// chance is true with probability of roughly 1/n. rapid's integer draws are biased towards the
+// ends of the range (0 comes up four to five times more often than 1/n for n = 40), so the
+// test is against the middle of the range; shrinking (towards 0) then switches features off.
+func (g *gen) chance(n int, label string) bool {
+	if n <= 1 {
+		return true
+	}
+	return rapid.IntRange(0, n-1).Draw(g.t, label) == n/2
 }
 
 // risk decides whether to enter a class that is recorded as a known finding: rarely while the
@@ -149,17 +155,19 @@ var blockPieces = []string{"a", "b", "Z", "0", " ", "{", "}", "#", ",", ":", "\\
 func blockTrimmed(raw string) string { return strings.Trim(raw, " \t\r\n") }
 
 // blockQuoteClass: raw text whose trimmed form ends in a quote (the printer would merge it
-// with the closing delimiter; the lexer also loses quotes that precede trailing white space)
-// or that has a quote directly after the escape \""" (the lexer only skips one quote after a
+// with the closing delimiter; the lexer also loses quotes that precede trailing white space),
+// starts with a quote (the lexer drops leading quotes that are followed by white space), or
+// that has a quote directly after the escape \""" (the lexer only skips one quote after a
 // backslash) — recorded finding C05-block-string-quotes.
 func blockQuoteClass(raw string) bool {
-	return strings.HasSuffix(blockTrimmed(raw), `"`) || strings.Contains(raw, `\""""`)
+	t := blockTrimmed(raw)
+	return strings.HasSuffix(t, `"`) || strings.HasPrefix(t, `"`) || strings.Contains(raw, `\""""`)
 }
 
-// blockBackslashClass: the first non-white-space character is a backslash (the lexer then
-// does not trim the leading white space) — recorded finding C05-block-string-leading-backslash.
+// blockBackslashClass: a backslash comes before the first character that is neither white
+// space nor a quote (the lexer then does not trim the leading white space) — recorded finding C05-block-string-leading-backslash.
 func blockBackslashClass(raw string) bool {
-	return strings.HasPrefix(blockTrimmed(raw), `\`)
+	return strings.HasPrefix(strings.TrimLeft(blockTrimmed(raw), `"`), `\`)
 }
 
 // blockTrimClass: the BlockStringValue changes when the surrounding white space is trimmed —
@@ -196,14 +204,19 @@ func (g *gen) blockRawText() string {
 		}
 		l := strings.Trim(lb.String(), " ")
 		l = strings.ReplaceAll(l, `\"""`, "\x01")        // keep the escape
-		l = strings.ReplaceAll(l, `"""`, `""x"`)          // never a bare delimiter
+		for strings.Contains(l, `"""`) { // never a bare delimiter
+			l = strings.ReplaceAll(l, `"""`, `""x"`)
+		}
 		l = strings.ReplaceAll(l, "\x01\"", "\x01x\"")    // no quote directly after the escape (recorded class)
 		l = strings.ReplaceAll(l, "\\\x01", "\\x\x01")    // no backslash directly before the escape (stated exclusion, NOTES.md)
 		l = strings.ReplaceAll(l, "\x01", `\"""`)
 		if l == "" || strings.HasSuffix(l, `"`) || strings.HasSuffix(l, `\`) {
 			l += "x"
 		}
-		if i == 0 && strings.HasPrefix(l, `\`) && !g.risk("C05-block-string-leading-backslash", "blockbackslash") {
+		if i == 0 && strings.HasPrefix(l, `"`) {
+			l = "x" + l // a quote next to the opening delimiter: recorded class, entered below
+		}
+		if i == 0 && blockBackslashClass(l) && !g.risk("C05-block-string-leading-backslash", "blockbackslash") {
 			l = "x" + l
 		}
 		extra := ""
@@ -244,7 +257,11 @@ func (g *gen) blockRawText() string {
 	raw := b.String()
 	if g.risk("C05-block-string-quotes", "blockquote") {
 		// a quote separated from the closing delimiter by white space only, or the escape
-		raw += rapid.SampledFrom([]string{`" `, ` "" `, "\"\n", `\"""`, "x\\\"\"\"\n"}).Draw(g.t, "blockquotetail")
+		if g.chance(3, "blockquotehead") {
+			raw = rapid.SampledFrom([]string{`"" `, `" `, "\"\n", `"`}).Draw(g.t, "blockquotehead") + raw
+		} else {
+			raw += rapid.SampledFrom([]string{`" `, ` "" `, "\"\n", `\"""`, "x\\\"\"\"\n"}).Draw(g.t, "blockquotetail")
+		}
 	}
 	return raw
 }
@@ -501,12 +518,21 @@ func (g *gen) operation(shorthandOK bool) *sn {
 	op := mk("op", ot, desc)
 	g.flag("op:" + ot)
 	named := g.chance(2, "opname")
+	hasVars := g.chance(3, "hasvars")
+	// `query` without name and variables but with a description or directives: the printer
+	// omits the keyword (recorded finding) — enter that class only with g.risk
+	bare := ot == "query" && !named && !hasVars
+	if bare && (desc != nil || !shorthandOK) && !g.risk("C05-query-keyword-omitted", "baredesc") {
+		named, bare = true, false
+	}
+	if bare && !shorthandOK {
+		g.flag("query-keyword-needed")
+	}
 	if named {
 		n := g.name("opname", false)
 		g.w(n)
 		op.add(mk("name", n))
 	}
-	hasVars := g.chance(3, "hasvars")
 	if hasVars {
 		g.flag("variable-definitions")
 		nv := rapid.IntRange(1, 3).Draw(g.t, "nvars")
@@ -531,8 +557,13 @@ func (g *gen) operation(shorthandOK bool) *sn {
 		}
 		g.p(")")
 	}
-	dirs := g.directives(5, true, false, "operation")
-	if (len(dirs) > 0 || desc != nil) && ot == "query" && !named && !hasVars {
+	var dirs []*sn
+	if !bare || desc != nil {
+		dirs = g.directives(5, true, false, "operation")
+	} else if g.risk("C05-query-keyword-omitted", "baredirs") {
+		dirs = g.directives(1, true, false, "operation")
+	}
+	if bare && (len(dirs) > 0 || desc != nil) {
 		g.flag("query-keyword-needed")
 	}
 	op.add(dirs...)
@@ -695,8 +726,14 @@ func (g *gen) typeSystemDef() *sn {
 		dirs := g.directives(3, false, false, map[string]string{"type": "object", "interface": "interface"}[kind])
 		n.add(dirs...)
 		parts += len(dirs)
-		// a definition may omit the fields; an extension must have at least one part
-		if (ext && parts == 0) || !g.chance(8, "nofields") {
+		// a definition may omit the fields; an extension must have at least one part. A
+		// definition that ends with its implements list is a recorded class (rejected when
+		// another definition follows).
+		bodyless := !(ext && parts == 0) && g.chance(8, "nofields")
+		if bodyless && parts > 0 && len(dirs) == 0 && !g.risk("C05-implements-followed-by-definition", "implbodyless") {
+			bodyless = false
+		}
+		if !bodyless {
 			n.add(g.fieldDefs()...)
 		} else {
 			g.flag("bodyless:" + kind)
